@@ -372,7 +372,10 @@ static void DecodeRES(Word Index) {
     if (mFirstPassUnknown(Flags)) {
         WrError(ErrNum_FirstPassCalc);
     }
-    if (OK && !mFirstPassUnknown(Flags)) {
+    if (OK && !mFirstPassUnknown(Flags) && (Size < 0)) {
+        /* would move the program counter back into code already written */
+        WrStrErrorPos(ErrNum_UnderRange, &ArgStr[1]);
+    } else if (OK && !mFirstPassUnknown(Flags)) {
         DontPrint = True;
         if (!Size) {
             WrError(ErrNum_NullResMem);
